@@ -58,6 +58,8 @@ def items(tier: str) -> List[Any]:
         if op.imms and op.imms[0] in ("u8",) and (callable(op.pops) or callable(op.pushes)):
             for n in range(0, 5):
                 variants.append([str(n)] + [x for k in op.imms[1:] for x in default_imm(k)])
+        elif op.imms and op.imms[0] == "optu8":
+            variants = [[], ["0"], ["1"], ["2"]]
         elif op.imms and op.imms[0] in ("labels", "ints", "bytess"):
             base = default_imm(op.imms[0])
             for cnt in range(1 if op.imms[0] == "labels" else 0, 4):
